@@ -149,6 +149,18 @@ pub fn run(ctx: &mut Ctx) {
         let spaced = render(&elems, &mut rng, true);
         check_intended(ctx, &elems, &spaced);
         ctx.sample(|| spaced.clone());
+        if ctx.case_no % 499 == 7 {
+            // one quoted name with hundreds of escapes, and names of hundreds of bytes
+            let n = *rng.pick(&[255usize, 256, 257, 300, 512, 700]);
+            let esc: String = (0..n).map(|k| *rng.pick(&['\n', '"', '\\', '\t', '\u{1}']).min(&if k % 5 == 4 { 'a' } else { '\u{7f}' })).collect();
+            let long: String = (0..n).map(|k| (b'a' + (k % 26) as u8) as char).collect();
+            for e in [vec![KP::Quoted(esc.clone())], vec![KP::Index(1), KP::Quoted(esc), KP::Name(long.clone())], vec![KP::Quoted(long)]] {
+                let t = render(&e, &mut rng, false);
+                check_intended(ctx, &e, &t);
+                let t = render(&e, &mut rng, true);
+                check_intended(ctx, &e, &t);
+            }
+        }
         // raw totality
         let k = rng.below(6) + 1;
         let mut s = String::new();
